@@ -11,6 +11,8 @@ ASSUMPTIONS = [
     "constants and the CRC table are re-extracted from the source on every run (gen/Consts.v)",
 ]
 NEEDS_RELEASE = False
+# coqchk (thorough tier) re-checks everything except the 32 files that only contain the sharded exhaustive search
+COQCHK_ADMIT = ["UF.CrcHdShard%02d" % i for i in range(32)]
 
 
 def streams(seed, tier):
